@@ -126,7 +126,7 @@ func readCropped(l *mc.Local, s spec, page *grid, left, top, w, h int, tryHarder
 			err = e
 			return
 		}
-		res, err = s.reader().Decode(c, hintsFor(tryHarder))
+		res, err = s.reader().Decode(c, hintsFor(tryHarder, w+h))
 	})
 	l.Count("evaluations", 1)
 	switch {
@@ -205,7 +205,7 @@ func runReaderHistories() {
 						err = e
 						return
 					}
-					res, err = rd.Decode(bmp, hintsFor(th))
+					res, err = rd.Decode(bmp, hintsFor(th, 0))
 				})
 				l.Count("evaluations", 1)
 				switch {
